@@ -419,3 +419,21 @@ def match_decoded(exp: typing.Any, act: typing.Any) -> typing.Any:
     n = exp[2]
     name, e = exp[3][0]
     return z3.And(act[2] == n, match_decoded(e, dict(act[3])[name]))
+
+
+def meaningful_leaves(exp: typing.Any, act: typing.Any) -> typing.List[typing.Any]:
+    """the terms of the actual object that carry meaning for the decoded shape `exp` (same traversal as match_decoded)"""
+    k = exp[0]
+    if k == "prim":
+        return [act[2]]
+    if k == "arr":
+        out = [x for e, a in zip(exp[2], act[2]) for x in meaningful_leaves(e, a)]
+        return out + ([act[3]] if exp[3] is not None else [])
+    if k == "bits":
+        out = [z3.Extract(i % 8, i % 8, act[2][i // 8]) for i, _ in enumerate(exp[2])]
+        return out + ([act[3]] if exp[3] is not None else [])
+    if k == "struct":
+        am = dict(act[2])
+        return [x for n, e in exp[2] for x in meaningful_leaves(e, am[n])]
+    name, e = exp[3][0]
+    return [act[2]] + meaningful_leaves(e, dict(act[3])[name])
